@@ -534,6 +534,13 @@ wait:
 		// and the library still answers as before
 		history(1, rng.Perm(n))
 	}
-	ck.finish(map[string]int{"ops": n, "ops_that_panic": nPanicOps, "histories": nRuns, "noise_calls": nNoise, "lock_checks": nPanicsChecked,
+	// caller-settable state: switching the day-boundary school on a lunar date's shared eight-character object changes the views of
+	// that object only, never another accessor of the date (reflective probe, see history_probe.go)
+	nProbe := 300
+	if tier == "thorough" {
+		nProbe = 4000
+	}
+	histProbes, histAccessors := histSectSweep(ck, nProbe)
+	ck.finish(map[string]int{"eightchar_school_probes": histProbes, "eightchar_school_accessor_comparisons": histAccessors, "ops": n, "ops_that_panic": nPanicOps, "histories": nRuns, "noise_calls": nNoise, "lock_checks": nPanicsChecked,
 		"goroutines": goroutines, "concurrent_calls": nConcurrent, "shared_reads": nSharedReads}, samples)
 }
